@@ -113,9 +113,11 @@ class Ctx:
                 regen()
             sh([sys.executable, os.path.join(VERIF, "tools", "mkcoqproject.py")], check=True)
             rc, out, err = sh(["make", "-j16", props_module + ".vo"], cwd=COQ, timeout=timeout)
-            if rc == 0:
-                # unconditional fresh compile of the property file itself
-                rc, out, err = sh(["coqc"] + coq_args() + [props_module + ".v"], cwd=COQ, timeout=timeout)
+        if rc == 0:
+            # unconditional fresh compile of the property file itself (outside the lock: its output goes to this
+            # run's work directory, so concurrent checks do not wait for each other)
+            rc, out, err = sh(["coqc"] + coq_args() + ["-o", os.path.join(self.work, props_module + ".vo"),
+                                                       props_module + ".v"], cwd=COQ, timeout=timeout)
         res["log"] = (out + "\n" + err)[-6000:]
         if rc != 0:
             # which theorem failed?  coqc reports 'File "./X.v", line N'
